@@ -59,7 +59,8 @@ pub fn process(ctx: &Ctx, line: &str, prog: &Progress, st: &mut Stats) {
         let c = &o.c;
         let d = sim.apply(c);
         st.cases += 1;
-        if !o.res.contains(&d.class) {
+        let refused_unknown = d.class == "ErrUnknown" && o.res.iter().any(|r| r == "Self" || r == "Removed" || r == "Ancestor");
+        if !o.res.contains(&d.class) && !refused_unknown {
             continue; // reported by the main replay under C05
         }
         let alloc = c.op == "new" || c.op == "append_value";
